@@ -66,7 +66,7 @@ type cblPlan struct {
 const cblDocs = 3
 
 func init() {
-	for _, id := range []string{"C14B", "C02B"} {
+	for _, id := range []string{"C14B", "C02B", "C02R"} {
 		id := id
 		verifsim.Register(&verifsim.Property{
 			ID:       id,
@@ -77,7 +77,7 @@ func init() {
 				return pl.Cfg
 			},
 			Run: func(env *verifsim.Env, raw json.RawMessage) *verifsim.Violation {
-				return cblRun(env, raw, strings.TrimSuffix(id, "B"))
+				return cblRun(env, raw, id[:3], id == "C02R")
 			},
 			Shrink: cblShrink,
 		})
@@ -173,6 +173,19 @@ type cblRegistry struct {
 	atts    map[string]string          // docID + "\x00" + digest -> content
 	current map[string]string          // docID -> digest of the attachment the last acknowledged revision lists ("" none)
 	changed map[string]int             // docID -> number of writes issued (acknowledged or not)
+	revs    map[string][]string        // docID -> revision ids of acknowledged writes (REST part)
+}
+
+// ack records the revision id an acknowledged write answered with.
+func (g *cblRegistry) ack(id string, resp []byte) {
+	var out struct {
+		Rev string `json:"rev"`
+	}
+	if json.Unmarshal(resp, &out) == nil && out.Rev != "" {
+		g.mu.Lock()
+		g.revs[id] = append(g.revs[id], out.Rev)
+		g.mu.Unlock()
+	}
 }
 
 func (g *cblRegistry) allow(marker string, chans []string) {
@@ -240,6 +253,7 @@ type cblClient struct {
 	fetchedOK, refusedProbes, rejectedRevs, attRevs int
 	perDoc                                          map[string]int
 	ever                                            map[string]bool // every channel the user held at some time
+	restReads, restOK                               int             // REST part: requests issued, answered 200
 }
 
 // coin is a decision of the client that depends on the seed and on how many revisions of the document this client
@@ -499,7 +513,7 @@ func (c *cblClient) disconnect() {
 	}
 }
 
-func cblRun(env *verifsim.Env, raw json.RawMessage, judgeProp string) *verifsim.Violation {
+func cblRun(env *verifsim.Env, raw json.RawMessage, judgeProp string, restReads bool) *verifsim.Violation {
 	var p cblPlan
 	if err := json.Unmarshal(raw, &p); err != nil {
 		panic(err)
@@ -512,7 +526,7 @@ func cblRun(env *verifsim.Env, raw json.RawMessage, judgeProp string) *verifsim.
 	if err != nil {
 		panic(err)
 	}
-	reg := &cblRegistry{allowed: map[string]map[string]bool{}, docCh: map[string]map[string]bool{}, atts: map[string]string{}, current: map[string]string{}, changed: map[string]int{}}
+	reg := &cblRegistry{allowed: map[string]map[string]bool{}, docCh: map[string]map[string]bool{}, atts: map[string]string{}, current: map[string]string{}, changed: map[string]int{}, revs: map[string][]string{}}
 	var clients []*cblClient
 	var setupErr string
 	budget := func(err error, where string) *verifsim.Violation {
@@ -566,7 +580,7 @@ func cblRun(env *verifsim.Env, raw json.RawMessage, judgeProp string) *verifsim.
 		for _, c := range clients {
 			c.disconnect()
 			c.mu.Lock()
-			for k, v := range map[string]int{"revision messages received": c.received, "revision messages with attachments": c.attRevs, "attachments downloaded inside the window": c.fetchedOK,
+			for k, v := range map[string]int{"REST reads issued": c.restReads, "REST reads answered 200": c.restOK, "revision messages received": c.received, "revision messages with attachments": c.attRevs, "attachments downloaded inside the window": c.fetchedOK,
 				"revisions refused by the client": c.rejectedRevs, "downloads refused outside the window": c.refusedProbes} {
 				for i := 0; i < v; i++ {
 					s.Probe(k)
@@ -609,8 +623,9 @@ func cblRun(env *verifsim.Env, raw json.RawMessage, judgeProp string) *verifsim.
 					rec.End(nil, nil)
 					return
 				}
-				c, _ := n.adminReq("DELETE", "/db/"+id+"?rev="+rev, "")
+				c, dresp := n.adminReq("DELETE", "/db/"+id+"?rev="+rev, "")
 				if c < 300 {
+					reg.ack(id, dresp)
 					reg.mu.Lock()
 					reg.current[id] = ""
 					reg.changed[id]++
@@ -668,8 +683,9 @@ func cblRun(env *verifsim.Env, raw json.RawMessage, judgeProp string) *verifsim.
 					body["_attachments"] = map[string]any{"file": map[string]any{"stub": true, "digest": dg, "revpos": a["revpos"], "length": a["length"], "content_type": a["content_type"]}}
 				}
 			}
-			c, _ := n.adminReq("PUT", path, string(mustJSON(body)))
+			c, presp := n.adminReq("PUT", path, string(mustJSON(body)))
 			if c < 300 {
+				reg.ack(id, presp)
 				reg.mu.Lock()
 				reg.current[id] = newDigest
 				reg.changed[id]++
@@ -685,6 +701,9 @@ func cblRun(env *verifsim.Env, raw json.RawMessage, judgeProp string) *verifsim.
 			leaks, windowErr, corrupt := c.leaks, c.windowErr, c.corrupt
 			c.mu.Unlock()
 			if judgeProp == "C02" && len(leaks) > 0 {
+				if restReads {
+					return verifsim.Vf("C02", "leak", "REST / replication protocol: %s", leaks[0])
+				}
 				return verifsim.Vf("C02", "leak", "replication protocol: %s", leaks[0])
 			}
 			if judgeProp == "C14" {
@@ -788,6 +807,12 @@ func cblRun(env *verifsim.Env, raw json.RawMessage, judgeProp string) *verifsim.
 				}
 			})
 		}
+		if restReads {
+			for ci, c := range clients {
+				c, ci, pi := c, ci, pi
+				s.Spawn(fmt.Sprintf("p%d.r%d", pi, ci), "n1", func(t *verifsim.Task) { c02rReader(t, n, c, reg, p.Seed, pi, 6) })
+			}
+		}
 		if err := s.DriveAll(); err != nil {
 			return budget(err, fmt.Sprintf("phase %d", pi))
 		}
@@ -802,6 +827,15 @@ func cblRun(env *verifsim.Env, raw json.RawMessage, judgeProp string) *verifsim.
 		if atRest {
 			if v := probe(fmt.Sprintf("after phase %d", pi)); v != nil {
 				return v
+			}
+			if restReads {
+				v, err := c02rAtRest(s, n, clients, reg, fmt.Sprintf("at rest after phase %d", pi), pi*2)
+				if err != nil {
+					return budget(err, "REST reads")
+				}
+				if v != nil {
+					return v
+				}
 			}
 		}
 		if atRest && pi < len(p.Access) && p.Access[pi] != nil {
@@ -836,6 +870,15 @@ func cblRun(env *verifsim.Env, raw json.RawMessage, judgeProp string) *verifsim.
 			if atRest {
 				if v := probe(fmt.Sprintf("after the access change that follows phase %d", pi)); v != nil {
 					return v
+				}
+				if restReads {
+					v, err := c02rAtRest(s, n, clients, reg, fmt.Sprintf("at rest after the access change that follows phase %d", pi), pi*2+1)
+					if err != nil {
+						return budget(err, "REST reads")
+					}
+					if v != nil {
+						return v
+					}
 				}
 			}
 		}
